@@ -6,7 +6,7 @@
    documented result for what the server did.  PARTIAL: the single-line commands (set/add/replace/append/prepend/
    cas, delete, incr/decr, touch, flush_all) are proved at the level of one reply line (the _partial theorems), and END TO END
    on the Client model for the one-command operations set/add/replace/append/prepend, delete, incr, decr, touch,
-   flush_all (the c05_e2e theorems): on a connected client with nothing pending, a fault-free transport and the specification
+   flush_all (the c05_e2e theorems): on a client that is connected with nothing pending or closed (it then connects first), a fault-free transport and the specification
    server as the peer, run_op returns exactly the documented result of what the server did, the server state
    advances by exactly that command, and nothing is left unread; the same for cas (c05_e2e_cas: True / False / None as
    the item was stored, changed by someone else, or absent) and for the multi-command operations set_many and delete_many
@@ -15,7 +15,7 @@
    the server re-times it, c05_gat_retimes).  Retrievals end to end are in Properties/C04.v; calls that (re)connect first are
    covered at the exchange level by c01_ready_*.  Checked rather than proved: the Pooled/Hash stacks (C16 relates them to Client). *)
 From Coq Require Import ZArith List Bool.
-From PM Require Import Lib.Py Model.Lits Spec.Proto Spec.Server Model.World Model.Client Proofs.Hoare Proofs.C02Proof Proofs.C05Proof Proofs.Quiet Proofs.E2E Proofs.E2EMany Proofs.E2EFetch Proofs.E2EGat.
+From PM Require Import Lib.Py Model.Lits Spec.Proto Spec.Server Model.World Model.Client Proofs.Hoare Proofs.C02Proof Proofs.C05Proof Proofs.Quiet Proofs.QuietConnect Proofs.QuietAny Proofs.E2E Proofs.E2EMany Proofs.E2EFetch Proofs.E2EGat.
 Import ListNotations.
 Open Scope Z_scope.
 
@@ -45,106 +45,111 @@ Theorem c05_reply_iff : forall (s : sstate) c, (snd (step s c) = []) <-> is_nore
 Proof. exact C05Proof.reply_iff_not_noreply. Qed.
 Print Assumptions c05_reply_iff.
 
-(* ---- end to end on the Client model (Proofs/E2E.v): St sid s [] w = connected on sid, server state s, nothing pending ---- *)
+(* ---- end to end on the Client model (Proofs/E2E.v) ----
+   Where the call starts is the parameter fr (Proofs/QuietAny.v):
+     fr = Some sid : Start = Done = "connected on sid, server state s, nothing pending" (St sid s []): the connection is kept;
+     fr = None     : Start = any ready client - closed (never used, or after a failed call) or connected with nothing pending on
+                     the socket, whatever its local buffer holds - and Done = connected on some socket with nothing pending: the
+                     call connects first if it has to (connectable: a UNIX path or at least one address to try). *)
 Definition catches (c : cfg) : Prop :=
   (forall e, exn_isa e Exception_ = true -> exn_isa e (h_misc c) = true) /\ (forall e, exn_isa e Exception_ = true -> exn_isa e (h_store c) = true).
 
 Theorem c05_e2e_delete : forall c, (forall e, exn_isa e Exception_ = true -> exn_isa e (h_misc c) = true) ->
-  forall sid s key n k, check_key c (c_prefix c) key = Ok k ->
+  forall fr, connectable c fr -> forall s key n k, check_key c (c_prefix c) key = Ok k ->
   let nr := eff_noreply c n in
   let s' := fst (exec s (CDelete k nr)) in let o := snd (exec s (CDelete k nr)) in
-  hoare (St sstate sid s []) (run_op sstate serve c (OpDelete key n))
-        (fun v w => v = (if nr then DBool true else contract_delete o) /\ St sstate sid s' [] w) (fun _ _ => False).
+  hoare (Start sstate fr s) (run_op sstate serve c (OpDelete key n))
+        (fun v w => v = (if nr then DBool true else contract_delete o) /\ Done sstate fr s' w) (fun _ _ => False).
 Proof. exact E2E.delete_e2e. Qed.
 Print Assumptions c05_e2e_delete.
 Theorem c05_e2e_touch : forall c, (forall e, exn_isa e Exception_ = true -> exn_isa e (h_misc c) = true) ->
-  forall sid s key expire n k eb, check_key c (c_prefix c) key = Ok k -> check_integer c expire = Ok eb -> in_i64 expire ->
+  forall fr, connectable c fr -> forall s key expire n k eb, check_key c (c_prefix c) key = Ok k -> check_integer c expire = Ok eb -> in_i64 expire ->
   exists z, int_value expire = Some z /\
   let nr := eff_noreply c n in
   let s' := fst (exec s (CTouch k z nr)) in let o := snd (exec s (CTouch k z nr)) in
-  hoare (St sstate sid s []) (run_op sstate serve c (OpTouch key expire n))
-        (fun v w => v = (if nr then DBool true else contract_touch o) /\ St sstate sid s' [] w) (fun _ _ => False).
+  hoare (Start sstate fr s) (run_op sstate serve c (OpTouch key expire n))
+        (fun v w => v = (if nr then DBool true else contract_touch o) /\ Done sstate fr s' w) (fun _ _ => False).
 Proof. exact E2E.touch_e2e. Qed.
 Theorem c05_e2e_flush : forall c, (forall e, exn_isa e Exception_ = true -> exn_isa e (h_misc c) = true) ->
-  forall sid s delay n db, check_integer c delay = Ok db -> (forall z, int_value delay = Some z -> 0 <= z) ->
+  forall fr, connectable c fr -> forall s delay n db, check_integer c delay = Ok db -> (forall z, int_value delay = Some z -> 0 <= z) ->
   exists z, int_value delay = Some z /\
   let nr := eff_noreply c n in
   let s' := fst (exec s (CFlush z nr)) in
-  hoare (St sstate sid s []) (run_op sstate serve c (OpFlushAll delay n)) (fun v w => v = DBool true /\ St sstate sid s' [] w) (fun _ _ => False).
+  hoare (Start sstate fr s) (run_op sstate serve c (OpFlushAll delay n)) (fun v w => v = DBool true /\ Done sstate fr s' w) (fun _ _ => False).
 Proof. exact E2E.flush_e2e. Qed.
 (* incr / decr: the new counter, None when absent or under noreply; a non-numeric item raises MemcacheClientError and the connection is closed *)
 Theorem c05_e2e_arith : forall c, (forall e, exn_isa e Exception_ = true -> exn_isa e (h_misc c) = true) ->
-  forall sid s (inc : bool) key value n k vb, check_key c (c_prefix c) key = Ok k -> check_integer c value = Ok vb ->
+  forall fr, connectable c fr -> forall s (inc : bool) key value n k vb, check_key c (c_prefix c) key = Ok k -> check_integer c value = Ok vb ->
   (forall z, int_value value = Some z -> 0 <= z < 2 ^ 64) ->
   exists z, int_value value = Some z /\
   let nr := py_truthy n in
   let s' := fst (exec s (CArith inc k z nr)) in let o := snd (exec s (CArith inc k z nr)) in
-  hoare (St sstate sid s []) (run_op sstate serve c (if inc then OpIncr key value n else OpDecr key value n))
-        (fun v w => (if nr then v = DNone else contract_arith o = Ok v) /\ St sstate sid s' [] w)
+  hoare (Start sstate fr s) (run_op sstate serve c (if inc then OpIncr key value n else OpDecr key value n))
+        (fun v w => (if nr then v = DNone else contract_arith o = Ok v) /\ Done sstate fr s' w)
         (fun e w => nr = false /\ contract_arith o = Raise e /\ w_sock w = None).
 Proof. exact E2E.arith_e2e. Qed.
 Print Assumptions c05_e2e_arith.
 (* set / add / replace / append / prepend of one key: True / False as the server stored it or not (True under noreply) *)
 Theorem c05_e2e_store : forall c, (forall e, exn_isa e Exception_ = true -> exn_isa e (h_store c) = true) ->
-  forall sid s verb key value expire n flags bytes,
+  forall fr, connectable c fr -> forall s verb key value expire n flags bytes,
   let nr := eff_noreply c n in let v := sv_of verb in
   store_bytes c (verb_name verb) [(key, value)] expire nr flags None = Ok bytes -> in_i64 expire -> in_u32 flags ->
   exists k f e db, store_intent c v [(key, value)] expire nr flags [] = Ok [CStore v k f e db [] nr] /\
   let s' := fst (exec s (CStore v k f e db [] nr)) in let o := snd (exec s (CStore v k f e db [] nr)) in
-  hoare (St sstate sid s []) (run_op sstate serve c (OpStore verb key value expire n flags))
-        (fun r w => r = (if nr then DBool true else contract_store o) /\ St sstate sid s' [] w) (fun _ _ => False).
+  hoare (Start sstate fr s) (run_op sstate serve c (OpStore verb key value expire n flags))
+        (fun r w => r = (if nr then DBool true else contract_store o) /\ Done sstate fr s' w) (fun _ _ => False).
 Proof. exact E2E.store_e2e. Qed.
 Print Assumptions c05_e2e_store.
 
 (* cas: True when stored, False when the item changed since the gets, None when it is absent (True under noreply) *)
 Theorem c05_e2e_cas : forall c, (forall e, exn_isa e Exception_ = true -> exn_isa e (h_store c) = true) ->
-  forall sid s key value cas expire n flags cb bytes,
+  forall fr, connectable c fr -> forall s key value cas expire n flags cb bytes,
   check_cas c cas = Ok cb ->
   let nr := py_truthy n in
   store_bytes c L_cas [(key, value)] expire nr flags (Some cb) = Ok bytes -> in_i64 expire -> in_u32 flags ->
   exists k f e db, store_intent c VCas [(key, value)] expire nr flags cb = Ok [CStore VCas k f e db cb nr] /\
   let s' := fst (exec s (CStore VCas k f e db cb nr)) in let o := snd (exec s (CStore VCas k f e db cb nr)) in
-  hoare (St sstate sid s []) (run_op sstate serve c (OpCas key value cas expire n flags))
-        (fun r w => r = (if nr then DBool true else contract_store o) /\ St sstate sid s' [] w) (fun _ _ => False).
+  hoare (Start sstate fr s) (run_op sstate serve c (OpCas key value cas expire n flags))
+        (fun r w => r = (if nr then DBool true else contract_store o) /\ Done sstate fr s' w) (fun _ _ => False).
 Proof. exact E2E.cas_e2e. Qed.
 Print Assumptions c05_e2e_cas.
 (* set_many: every item is stored in order, the list of failed keys is empty *)
 Theorem c05_e2e_set_many : forall c, (forall e, exn_isa e Exception_ = true -> exn_isa e (h_store c) = true) ->
-  forall sid s pairs expire n flags bytes,
+  forall fr, connectable c fr -> forall s pairs expire n flags bytes,
   let nr := eff_noreply c n in
   store_bytes c L_set pairs expire nr flags None = Ok bytes -> in_i64 expire -> in_u32 flags ->
   exists cmds, store_intent c VSet pairs expire nr flags [] = Ok cmds /\ Forall (is_set nr) cmds /\ length cmds = length pairs /\
-  hoare (St sstate sid s []) (run_op sstate serve c (OpSetMany pairs expire n flags))
-        (fun r w => r = DList [] /\ St sstate sid (fst (run_cmds s cmds)) [] w) (fun _ _ => False).
+  hoare (Start sstate fr s) (run_op sstate serve c (OpSetMany pairs expire n flags))
+        (fun r w => r = DList [] /\ Done sstate fr (fst (run_cmds s cmds)) w) (fun _ _ => False).
 Proof. exact E2EMany.set_many_e2e. Qed.
 Print Assumptions c05_e2e_set_many.
 (* delete_many: every key is deleted in order, the call returns True *)
 Theorem c05_e2e_delete_many : forall c, (forall e, exn_isa e Exception_ = true -> exn_isa e (h_misc c) = true) ->
-  forall sid s (oneshot : bool) keys n ks, legal_keys c keys = Ok ks ->
+  forall fr, connectable c fr -> forall s (oneshot : bool) keys n ks, legal_keys c keys = Ok ks ->
   let nr := eff_noreply c n in
-  hoare (St sstate sid s []) (run_op sstate serve c (OpDeleteMany oneshot keys n))
-        (fun r w => r = DBool true /\ St sstate sid (fst (run_cmds s (map (fun k => CDelete k nr) ks))) [] w) (fun _ _ => False).
+  hoare (Start sstate fr s) (run_op sstate serve c (OpDeleteMany oneshot keys n))
+        (fun r w => r = DBool true /\ ((ks = [] /\ Start sstate fr s w) \/ Done sstate fr (fst (run_cmds s (map (fun k => CDelete k nr) ks))) w)) (fun _ _ => False).
 Proof. exact E2EMany.delete_many_e2e. Qed.
 Print Assumptions c05_e2e_delete_many.
 
 (* gat / gats: the value (and cas token) as for get / gets; on the server the item's expiry is re-timed *)
 Theorem c05_e2e_gat : forall c, c_ignore_exc c = false -> h_fetch c = BaseException ->
-  forall sid s key expire default k z, check_key c (c_prefix c) key = Ok k -> swf s ->
+  forall fr, connectable c fr -> forall s key expire default k z, check_key c (c_prefix c) key = Ok k -> swf s ->
   int_value expire = Some z -> - 2 ^ 63 <= z < 2 ^ 63 ->
   let s' := fst (exec s (CGat false z [k])) in
-  hoare (St sstate sid s []) (run_op sstate serve c (OpGat key expire default))
-        (fun v w => match live s k with None => v = default | Some it => deser c it = Ok v end /\ St sstate sid s' [] w)
+  hoare (Start sstate fr s) (run_op sstate serve c (OpGat key expire default))
+        (fun v w => match live s k with None => v = default | Some it => deser c it = Ok v end /\ Done sstate fr s' w)
         (fun e w => (exists it, live s k = Some it /\ deser c it = Raise e) /\ w_sock w = None).
 Proof. exact E2EGat.gat_e2e. Qed.
 Print Assumptions c05_e2e_gat.
 Theorem c05_e2e_gats : forall c, c_ignore_exc c = false -> h_fetch c = BaseException ->
-  forall sid s key expire default cas_default k z, check_key c (c_prefix c) key = Ok k -> swf s ->
+  forall fr, connectable c fr -> forall s key expire default cas_default k z, check_key c (c_prefix c) key = Ok k -> swf s ->
   int_value expire = Some z -> - 2 ^ 63 <= z < 2 ^ 63 ->
   let s' := fst (exec s (CGat true z [k])) in
-  hoare (St sstate sid s []) (run_op sstate serve c (OpGats key expire default cas_default))
+  hoare (Start sstate fr s) (run_op sstate serve c (OpGats key expire default cas_default))
         (fun v w => match live s k with
                     | None => v = DTuple [default; cas_default]
-                    | Some it => exists x, deser c it = Ok x /\ v = DTuple [x; DBytes (str_of_Z (i_cas it))] end /\ St sstate sid s' [] w)
+                    | Some it => exists x, deser c it = Ok x /\ v = DTuple [x; DBytes (str_of_Z (i_cas it))] end /\ Done sstate fr s' w)
         (fun e w => (exists it, live s k = Some it /\ deser c it = Raise e) /\ w_sock w = None).
 Proof. exact E2EGat.gats_e2e. Qed.
 Theorem c05_gat_retimes : forall s (g : bool) z k it, live s k = Some it ->
